@@ -63,6 +63,8 @@ def install(reg: Registry):
             ('children-so-far', id_name_map(o, h, DC, o.f('children', c.self), done=c.done)),
             ('parents-empty', h.bagof(DP) == h.bagof(DP)), ('parents-none', z3.Select(h.arr['D_has'], DP) == EMPTY_HAS),
             ('cb-names', cb_names(o, h, R, c.self)),
+            # the two nested dicts stay the objects the literal created (a local alias taken before the loop denotes them)
+            ('nested-dicts-stay', z3.And(h.val(R, K('children')) == c.hl.val(R, K('children')), h.val(R, K('parents')) == c.hl.val(R, K('parents')))),
         ]
 
     def inv_parents(c: LCtx):
@@ -73,6 +75,7 @@ def install(reg: Registry):
             ('children', id_name_map(o, h, DC, o.f('children', c.self))),
             ('parents-so-far', id_name_map(o, h, DP, o.f('parents', c.self), done=c.done)),
             ('cb-names', cb_names(o, h, R, c.self)),
+            ('nested-dicts-stay', z3.And(h.val(R, K('children')) == c.hl.val(R, K('children')), h.val(R, K('parents')) == c.hl.val(R, K('parents')))),
         ]
 
     def cb_names(o, h, R, me):
@@ -144,7 +147,9 @@ def install_attacker_and_graph(reg: Registry):
         DE, DR = a_dicts(h, R)
         return a_shape(o, h, R, c.self) + old_same(o, h) + [
             ('entry-so-far', id_name_map(o, h, DE, o.f('entry_points', c.self), done=c.done)),
-            ('reached-none', z3.Select(h.arr['D_has'], DR) == EMPTY_HAS)]
+            ('reached-none', z3.Select(h.arr['D_has'], DR) == EMPTY_HAS),
+            ('nested-dicts-stay', z3.And(h.val(R, K('entry_points')) == c.hl.val(R, K('entry_points')),
+                                         h.val(R, K('reached_attack_steps')) == c.hl.val(R, K('reached_attack_steps'))))]
 
     def a_inv1(c: LCtx):
         o, h = c.old, c.h
@@ -152,7 +157,9 @@ def install_attacker_and_graph(reg: Registry):
         DE, DR = a_dicts(h, R)
         return a_shape(o, h, R, c.self) + old_same(o, h) + [
             ('entry', id_name_map(o, h, DE, o.f('entry_points', c.self))),
-            ('reached-so-far', id_name_map(o, h, DR, o.f('reached_attack_steps', c.self), done=c.done))]
+            ('reached-so-far', id_name_map(o, h, DR, o.f('reached_attack_steps', c.self), done=c.done)),
+            ('nested-dicts-stay', z3.And(h.val(R, K('entry_points')) == c.hl.val(R, K('entry_points')),
+                                         h.val(R, K('reached_attack_steps')) == c.hl.val(R, K('reached_attack_steps'))))]
 
     def a_ensures(c):
         o, h = c.old, c.h
@@ -192,15 +199,17 @@ def install_attacker_and_graph(reg: Registry):
         def inv(c: LCtx):
             o, h, G = c.old, c.h, c.self
             SA, ST = c.local('serialized_attack_steps').t, c.local('serialized_attackers').t
+            # (no assumption about which of the two result dicts is allocated first: `above` is the later of the two)
+            top = z3.If(ST > SA, ST, SA)
             out = old_same(o, h) + [
-                ('dicts-fresh', z3.And(SA >= o.alloc, ST > SA, SA < h.alloc, ST < h.alloc, SA != ST, h.cls(SA) == CLS_DICT, h.cls(ST) == CLS_DICT)),
+                ('dicts-fresh', z3.And(SA >= o.alloc, ST >= o.alloc, SA < h.alloc, ST < h.alloc, SA != ST, h.cls(SA) == CLS_DICT, h.cls(ST) == CLS_DICT)),
             ]
             if which == 0:
-                out += [('steps-so-far', entries(o, h, SA, nodes_l(o, G), name_key(o), reg.node_enc, done=c.done, above=ST, nested=('children', 'parents'))),
+                out += [('steps-so-far', entries(o, h, SA, nodes_l(o, G), name_key(o), reg.node_enc, done=c.done, above=top, nested=('children', 'parents'))),
                         ('attackers-none', z3.Select(h.arr['D_has'], ST) == EMPTY_HAS)]
             else:
-                out += [('steps', entries(o, h, SA, nodes_l(o, G), name_key(o), reg.node_enc, above=ST, nested=('children', 'parents'))),
-                        ('attackers-so-far', entries(o, h, ST, atts_l(o, G), id_key(o), att_enc, done=c.done, above=ST,
+                out += [('steps', entries(o, h, SA, nodes_l(o, G), name_key(o), reg.node_enc, above=top, nested=('children', 'parents'))),
+                        ('attackers-so-far', entries(o, h, ST, atts_l(o, G), id_key(o), att_enc, done=c.done, above=top,
                                                      nested=('entry_points', 'reached_attack_steps')))]
             return out
         return inv
